@@ -73,7 +73,7 @@ def _coupling(v):
     return None
 
 
-def rules(repo, tier):
+def _rules_core(repo, tier):
     out = rule_masks(repo, 'C02.MP', 'C02.GD', LOG_TARGETS, floor=5, exceptions=GD_EXCEPTIONS)
     out.append(rule_layout(repo, 'C02.LT', [
         ('SO3_Log', ['SO3'], 'so3'), ('SE3_Log', ['SE3'], 'se3'), ('RxSO3_Log', ['RxSO3'], 'rxso3'), ('Sim3_Log', ['Sim3'], 'sim3')], floor=4))
@@ -183,3 +183,11 @@ def rule_range(repo):
     if n_terms < 2:
         raise AnalysisError('C02.RANGE: found %d angle/|v| terms in SO3_Log.forward, expected 2' % n_terms)
     return res
+
+
+def rules(repo, tier):
+    from ..memo import rule_memo
+    return list(_rules_core(repo, tier)) + [rule_memo(repo, 'C02.MEMO', 'history independence: nothing computed from the contents of a tensor argument is kept '
+                                                      'under the identity, address or version of that tensor, in module-level storage, or published from a generator '
+                                                      'before it is complete - a later call with the same object and other contents must not be answered from it',
+                                                      ['pypose.lietensor.lietensor', 'pypose.lietensor.operation', 'pypose.lietensor.basics', 'pypose.lietensor.utils'], floor=3)]
